@@ -1512,6 +1512,8 @@ pub fn dispatch(sc: &Value) -> Value {
         "digest_pair" => replay_digest_pair(sc),
         "sign_oracle" => replay_sign_oracle(sc),
         "acquire_lock" => crate::synchronisation::room_locking_service::verif_hook::replay_acquire_lock(sc),
+        "handshake" => crate::synchronisation::peer_inbound_service::verif_hook::replay_handshake(sc),
+        "invite_consumption" => crate::network::peer_manager::verif_hook::replay_invite_consumption(sc),
         "data_model_update" => replay_data_model_update(sc),
         "c12_deletion" => replay_c12_deletion(sc),
         "validate_deletions_remote" => replay_validate_deletions_remote(sc),
